@@ -146,7 +146,13 @@ pub fn run(out: &mut Out, tier: &str, seed: u64) {
         for (hl, ops, mem) in cfgs {
             for pl in [0usize, 1, 17, 64, 129] {
                 let p = rng.bytes(pl);
-                let cfg = Config::interactive().with_hash_length(hl).with_opslimit(ops).with_memlimit(mem);
+                // the builder calls in every order (each must keep what the others set)
+                let cfg = match pl % 4 {
+                    0 => Config::interactive().with_hash_length(hl).with_opslimit(ops).with_memlimit(mem),
+                    1 => Config::moderate().with_opslimit(ops).with_memlimit(mem).with_hash_length(hl),
+                    2 => Config::sensitive().with_memlimit(mem).with_hash_length(hl).with_salt_length(16).with_opslimit(ops),
+                    _ => Config::default().with_opslimit(ops).with_salt_length(16).with_memlimit(mem).with_hash_length(hl).with_salt_length(16),
+                };
                 let h = guard(|| { let r: Result<VecPwHash, _> = PwHash::hash_with_salt(&p, salt.to_vec(), cfg.clone()); r });
                 out.search_evaluations += 1;
                 let rp = json!({"op":"obj.PwHash","hash_length":hl,"opslimit":ops,"memlimit":mem,"password":hx(&p),"salt":hx(&salt)});
